@@ -6,6 +6,7 @@ package main
 import (
 	"fmt"
 	"go/types"
+	"os"
 	"strings"
 
 	"golang.org/x/tools/go/ssa"
@@ -56,7 +57,34 @@ func (x *Exec) goCall(s *State, in *ssa.Go) {
 	}
 }
 
+// atCallAssertions checks the caller's `at-call` clauses matching this callee.
+func (x *Exec) atCallAssertions(s *State, site ssa.Instruction, calleeName string) {
+	if len(s.frames) == 0 {
+		return
+	}
+	ct := x.P.contractFor(s.top().fn)
+	if ct == nil {
+		return
+	}
+	for _, ac := range ct.AtCalls {
+		if !strings.Contains(calleeName, ac.Callee) {
+			continue
+		}
+		env := x.specEnvFrame(s)
+		t := env.evalBool(ac.Pred.Expr)
+		x.oblige(s, "assert", fmt.Sprintf("%s@%s", ac.Pred.Label, x.label(s, site)), t, site, ac.Pred.Src)
+		s.assume(t)
+	}
+}
+
 func (x *Exec) callValue(s *State, site ssa.Instruction, cc *ssa.CallCommon, fv Val, args []Val, k func(*State, Val)) {
+	if cc.IsInvoke() {
+		x.atCallAssertions(s, site, typeName(cc.Value.Type())+"."+cc.Method.Name())
+	} else if f, ok := fv.(*FuncV); ok {
+		if fn, ok := f.Fn.(*ssa.Function); ok {
+			x.atCallAssertions(s, site, fn.String())
+		}
+	}
 	if cc.IsInvoke() {
 		x.invoke(s, site, cc, fv, args, k)
 		return
@@ -320,7 +348,7 @@ func (x *Exec) invoke(s *State, site ssa.Instruction, cc *ssa.CallCommon, recv V
 		// known dynamic type: resolve statically
 		ms := x.P.Prog.MethodSets.MethodSet(iv.Dyn)
 		if sel := ms.Lookup(cc.Method.Pkg(), mname); sel != nil {
-			if fn := x.P.Prog.MethodValue(sel); fn != nil {
+			if fn := x.P.Prog.MethodValue(sel); fn != nil && fn.Synthetic == "" {
 				x.callStatic(s, site, cc, fn, nil, append([]Val{iv.V}, args...), k)
 				return
 			}
@@ -643,6 +671,9 @@ func (x *Exec) checkCalleeChanInvs(s *State, site ssa.Instruction, c *Contract, 
 			continue
 		}
 		found := x.chanHasInv(s, cv, ci)
+		if !found {
+			debugChan(x, s, cv, ci, calleeName)
+		}
 		x.oblige(s, "pre", fmt.Sprintf("%s/chaninv:%s@%s", calleeName, ci.Pred.Label, x.label(s, site)), Bool(found), site, "the channel passed must carry the invariant the callee relies on: "+ci.sig())
 	}
 }
@@ -662,4 +693,12 @@ func (x *Exec) chanHasInv(s *State, cv *ChanV, need *ChanInvDecl) bool {
 		return true
 	}
 	return false
+}
+
+func debugChan(x *Exec, s *State, cv *ChanV, need *ChanInvDecl, where string) {
+	if os.Getenv("GOVC_DEBUGCHAN") == "" || len(x.dry) > 0 {
+		return
+	}
+	cs, _ := x.E.objVal(s, cv.Obj).(*ChanStore)
+	fmt.Fprintf(os.Stderr, "chan %s need=%s @%s: engine=%d store=%v trace=%v\n", cv.Obj.name, need.sig(), where, len(x.E.chanInvs[cv.Obj.id]), cs, s.trace)
 }
